@@ -58,7 +58,7 @@ def step (d : PDesc K V) (s : PS K V) : POp K V → PS K V × Out K V
   | .addIfExist k v => let r := addIfExist d s k v; (r.1, .ofVal r.2)
   | .get k => (s, .ofVal (AL.get s.ents k))
   | .containsKey k => (s, .bool (!d.blind k && (AL.get s.ents k).isSome))
-  | .containsValue v => (s, .bool (s.ents.any (fun e => decide (e.2 = v))))
+  | .containsValue v => (s, .bool (s.ents.any (fun e => d.veq e.2 v)))
   | .remove k => ({ s with ents := AL.erase s.ents k }, .ofVal (AL.get s.ents k))
   | .clear => ({ s with ents := [] }, .unit)
   | .size => (s, .nat s.ents.length)
@@ -135,7 +135,7 @@ def step (d : PDesc K V) (m : PMap K V) : POp K V → PMap K V × Out K V
   | .addIfExist k v => let r := m.addIfExist hash d k v; (r.1, .ofVal r.2)
   | .get k => (m, .ofVal (m.get hash k))
   | .containsKey k => (m, .bool (!d.blind k && (m.get hash k).isSome))
-  | .containsValue v => (m, .bool (m.tab.entries.any (fun e => decide (e.2 = v))))
+  | .containsValue v => (m, .bool (m.tab.entries.any (fun e => d.veq e.2 v)))
   | .remove k => let r := m.remove hash k; (r.1, .ofVal r.2)
   | .clear => (m.clear, .unit)
   | .size => (m, .nat m.count)
